@@ -112,10 +112,13 @@ func (f *frame) execInstr(in ssa.Instruction) {
 	case *ssa.Phi:
 		return
 	case *ssa.Jump:
+		f.edgeCtl = f.ctl
 		f.pushEdge(n.Block().Succs[0], f.cur)
 	case *ssa.If:
 		c := f.val(n.Cond).S
+		f.edgeCtl = vc.Def("ec", "Bool", And(f.ctl, c))
 		f.pushEdge(n.Block().Succs[0], vc.Def("e", "Bool", And(f.cur, c)))
+		f.edgeCtl = vc.Def("ec", "Bool", And(f.ctl, Not(c)))
 		f.pushEdge(n.Block().Succs[1], vc.Def("e", "Bool", And(f.cur, Not(c))))
 	case *ssa.Return:
 		var rv Val
@@ -130,6 +133,15 @@ func (f *frame) execInstr(in ssa.Instruction) {
 			for _, r := range n.Results {
 				rv.Fs = append(rv.Fs, f.val(r))
 			}
+		}
+		if f.top && x.localMode && x.exitCheck != nil {
+			// local mode: the postconditions are checked at every return site separately
+			x.retCount++
+			x.retConds = append(x.retConds, f.cur)
+			save := f.cur
+			x.exitCheck(f, rv, fmt.Sprintf("@r%d", x.retCount))
+			f.cur = save
+			return
 		}
 		f.rets = append(f.rets, retInfo{cond: f.cur, st: f.st, val: rv})
 	case *ssa.Panic:
@@ -497,6 +509,8 @@ func (x *Exec) box(v Val, t types.Type) Val {
 	default:
 		if isInteger(t) && !x.vc.BV {
 			payload = v.S
+		} else if isBool(t) {
+			payload = Ite(v.S, "1", "0")
 		} else {
 			payload = x.vc.Const("box", "Int")
 			if x.boxes == nil {
@@ -506,9 +520,9 @@ func (x *Exec) box(v Val, t types.Type) Val {
 			// boxing is injective on the string payload when it is a string
 			if isString(t) {
 				fn := x.vc.Fun("box.string", []string{"String"}, "Int")
-				x.vc.Fact(Eq(payload, app(fn, v.S)))
+				x.vc.FactFor(payload, Eq(payload, app(fn, v.S)))
 				un := x.vc.Fun("unbox.string", []string{"Int"}, "String")
-				x.vc.Fact(Eq(app(un, payload), v.S))
+				x.vc.FactFor(payload, Eq(app(un, payload), v.S))
 			}
 		}
 	}
@@ -526,6 +540,9 @@ func (x *Exec) unbox(iv Val, t types.Type) Val {
 	if isInteger(t) && !x.vc.BV {
 		return Val{T: t, S: iv.Fs[1].S}
 	}
+	if isBool(t) {
+		return Val{T: t, S: Eq(iv.Fs[1].S, "1")}
+	}
 	if isString(t) {
 		un := x.vc.Fun("unbox.string", []string{"Int"}, "String")
 		return Val{T: t, S: app(un, iv.Fs[1].S)}
@@ -540,7 +557,7 @@ func (x *Exec) unbox(iv Val, t types.Type) Val {
 func (x *Exec) implements(tag string, iface types.Type) string {
 	fn := x.vc.Fun("implements:"+typeKey(iface), []string{"Int"}, "Bool")
 	// nil interface never satisfies a type assertion
-	x.vc.Fact(Not(app(fn, "0")))
+	x.vc.FactFor(fn, Not(app(fn, "0")))
 	// concrete types known to the program: decide statically
 	it := under(iface).(*types.Interface)
 	for name, n := range x.prog.typeTags {
@@ -553,9 +570,9 @@ func (x *Exec) implements(tag string, iface types.Type) string {
 	}
 	for ct, n := range x.prog.tagTypes {
 		if types.Implements(ct, it) {
-			x.vc.Fact(app(fn, IntLit(int64(n))))
+			x.vc.FactFor(fn, app(fn, IntLit(int64(n))))
 		} else {
-			x.vc.Fact(Not(app(fn, IntLit(int64(n)))))
+			x.vc.FactFor(fn, Not(app(fn, IntLit(int64(n)))))
 		}
 	}
 	return app(fn, tag)
